@@ -13,9 +13,11 @@
           if handler.idle is not None:
               while clock() - memory.idle_reset_time < handler.idle:  # the idle gate
                   sleep(memory.idle_reset_time + handler.idle - clock())
+          if not state[handler.id].retries: state = fresh             # no attempt yet: the series' clock starts at its first attempt
           started = clock()
           outcomes = execute_handlers_once(...)                       # invokes the function iff the state is awakened
           state = state.with_outcomes(outcomes)                       # retries+1, flags, delayed := now + outcome.delay
+          if state.done and state.counts.failure: memory.forever_stopped.add(handler.id)   # never spawned again in this process
           _, remaining = patch_and_check(patch)                       # API round trip(s) iff patch ≠ {}
           if not state.done:              sleep(state.delays)         # max(0, delayed - now)
           elif interval and sharp:        sleep(interval - (clock() - started) % interval)
@@ -41,7 +43,11 @@
   `execute_handler_once` applies them: the strict pre-checks before the call (`runtime ≥ timeout`,
   `retries ≥ limit`: no call, the series fails for good) and the look-ahead checks after a failure
   (`runtime + delay ≥ timeout`, `retries + 1 ≥ limit`: final instead of retried). `runtime` counts from
-  `started`, stamped when the state is created — at the loop top, BEFORE the idle gate.
+  `started`, stamped when the state is created; since 9118944 a series that has made no attempt yet is
+  re-created after the idle gate, so its clock starts with its first attempt (`HState.atStart`).
+  Re-spawning (filter mismatch / pause, then a new task) is not in the model: `Sched` is ONE task. Since
+  a6c10de a task that fails for good puts its id into `memory.forever_stopped` (`marksForeverStopped`,
+  translator-tied), which `spawn_daemons` excludes: there is no later task of that timer in the process.
 -/
 namespace Kopf.C10
 
@@ -134,6 +140,13 @@ def HState.awakened (h : HState) (now : Int) : Bool := !h.finished && !h.sleepin
     `if state.done and not state.counts.failure: state = fresh` -/
 def HState.atTop (h : HState) (top : Int) : HState := if h.finished && !h.failure then HState.fresh top else h
 
+/-- after the idle gate, at `start`: `if not state[handler.id].retries: state = fresh` -/
+def HState.atStart (h : HState) (start : Int) : HState := if h.retries = 0 then HState.fresh start else h
+
+/-- the state `execute_handlers_once` gets in an iteration that reached the loop top at `top` and passed the
+    idle gate at `start` -/
+def HState.entry (h : HState) (top start : Int) : HState := (h.atTop top).atStart start
+
 /-- the strict pre-checks of `execute_handler_once` at `now`: `HandlerTimeoutError` / `HandlerRetriesError`
     instead of a call -/
 def precheckFails (cfg : Cfg) (h : HState) (now : Int) : Bool :=
@@ -163,7 +176,7 @@ structure Iter where
 
 /-- The state after the iteration `it` entered with the carried state `h`. -/
 def step (cfg : Cfg) (h : HState) (it : Iter) : HState :=
-  let h1 := h.atTop it.top
+  let h1 := h.entry it.top it.start
   match it.res with
   | some r => h1.withOutcome it.ended (classify cfg h1.retries (it.ended - h1.started) r)
   | none =>
@@ -171,22 +184,22 @@ def step (cfg : Cfg) (h : HState) (it : Iter) : HState :=
     else h1                                                                                          -- `with_outcomes({})`
 
 /-- The `retry` kwarg the function sees in this iteration. -/
-def attemptOf (h : HState) (it : Iter) : Nat := (h.atTop it.top).retries
+def attemptOf (h : HState) (it : Iter) : Nat := (h.entry it.top it.start).retries
 
 /-- `state.runtime` when the function returned/raised in this iteration. -/
-def runtimeOf (h : HState) (it : Iter) : Int := it.ended - (h.atTop it.top).started
+def runtimeOf (h : HState) (it : Iter) : Int := it.ended - (h.entry it.top it.start).started
 
 /-- The iteration invokes the function, or the strict `timeout`/`retries` pre-check ends the series there
     (no call). -/
 def Iter.runsOrExpires (cfg : Cfg) (h : HState) (it : Iter) : Prop :=
-  it.res.isSome = true ∨ (it.res = none ∧ precheckFails cfg (h.atTop it.top) it.start = true)
+  it.res.isSome = true ∨ (it.res = none ∧ precheckFails cfg (h.entry it.top it.start) it.start = true)
 
 /-- What the code guarantees of an iteration record: time goes forward, the function is invoked exactly
     when the carried state is awakened at `start` and passes the pre-checks, and an iteration that
     invokes nothing takes no time inside `execute_handlers_once`. -/
 def Iter.ok (cfg : Cfg) (h : HState) (it : Iter) : Prop :=
   it.start ≤ it.ended ∧ it.ended ≤ it.patched ∧
-  it.res.isSome = ((h.atTop it.top).awakened it.start && !precheckFails cfg (h.atTop it.top) it.start) ∧
+  it.res.isSome = ((h.entry it.top it.start).awakened it.start && !precheckFails cfg (h.entry it.top it.start) it.start) ∧
   (it.res = none → it.ended = it.start)
 
 instance (cfg : Cfg) (h : HState) (it : Iter) : Decidable (it.ok cfg h) := by unfold Iter.ok; infer_instance
@@ -458,6 +471,18 @@ structure TopAtoms where
 /-- the loop resets the state (`true`) or keeps it -/
 def resetAtTop (a : TopAtoms) : Bool := a.done && !a.anyFailure
 
+/-- `if state.done and state.counts.failure: memory.forever_stopped.add(handler.id)` (after `with_outcomes`):
+    the timer is never spawned again in this operator process -/
+def marksForeverStopped (a : TopAtoms) : Bool := a.done && a.anyFailure
+
+/-- the fact the clock restart after the idle gate reads -/
+structure StartAtoms where
+  anyAttempt : Bool    -- `state[handler.id].retries` truthiness
+  deriving DecidableEq, Repr
+
+/-- the series' state is re-created at `started = clock()` -/
+def restartsClock (a : StartAtoms) : Bool := !a.anyAttempt
+
 /-- The facts the two idle loops read. -/
 structure GateAtoms where
   now : Int       -- `clock()`
@@ -474,13 +499,15 @@ def pollDelay (a : GateAtoms) : Int := a.idle
 
 /-- The statement skeleton of `_timer` the model is written against. -/
 inductive Step where
-  | initialDelay | freshState | yieldToLoop | resetUnlessFailed | idleGate | stampStart | execute | withOutcomes
+  | initialDelay | freshState | yieldToLoop | resetUnlessFailed | idleGate | restartClockIfNoAttempt | stampStart | execute
+  | withOutcomes | markForeverStopped
   | deliver | patch | rebindPatch | post
   deriving DecidableEq, Repr
 
 def prologue : List Step := [.initialDelay, .freshState]
 def loopBody : List Step :=
-  [.yieldToLoop, .resetUnlessFailed, .idleGate, .stampStart, .execute, .withOutcomes, .deliver, .patch, .rebindPatch, .post]
+  [.yieldToLoop, .resetUnlessFailed, .idleGate, .restartClockIfNoAttempt, .stampStart, .execute, .withOutcomes,
+   .markForeverStopped, .deliver, .patch, .rebindPatch, .post]
 
 /-- The loops of `_timer` whose condition carries `not stopper.is_set()` (all of them). -/
 inductive LoopId where
